@@ -3,6 +3,7 @@ package c10
 import (
 	"fmt"
 	"strings"
+	"time"
 
 	"verif/harness/internal/s3c"
 )
@@ -11,7 +12,10 @@ const (
 	dateSet     = "2099-01-01T00:00:00Z" // retention given to protected versions
 	dateShorter = "2031-01-01T00:00:00Z"
 	dateLonger  = "2150-01-01T00:00:00Z"
-	xmlns       = `xmlns="http://s3.amazonaws.com/doc/2006-03-01/"`
+	// the instant of dateLonger written in other zones
+	dateLongerWest = "2149-12-31T14:00:00-10:00"
+	dateLongerEast = "2150-01-01T05:30:00+05:30"
+	xmlns          = `xmlns="http://s3.amazonaws.com/doc/2006-03-01/"`
 )
 
 // steps that exist in both environments
@@ -19,7 +23,7 @@ var commonSteps = []string{
 	"overwrite-put", "copy-onto", "copy-self-replace", "complete-mpu-onto",
 	"delete", "delete-bypass", "delete-objects", "delete-objects-bypass", "delete-objects-alias-key", "delete-bucket",
 	"put-retention-shorter", "put-retention-shorter-bypass", "put-retention-downgrade", "put-retention-downgrade-bypass",
-	"put-retention-empty", "put-retention-empty-bypass", "put-retention-extend", "put-retention-upgrade",
+	"put-retention-empty", "put-retention-empty-bypass", "put-retention-extend", "put-retention-upgrade", "put-retention-extend-zone-west", "put-retention-extend-zone-east",
 	"legal-hold-off", "legal-hold-on",
 	"put-lock-config-no-enabled", "put-lock-config-disabled", "put-lock-config-rule-only", "put-lock-config-enabled-no-rule",
 	"put-lock-config-shorter-rule", "put-lock-config-downgrade-rule", "put-lock-config-empty-body",
@@ -72,6 +76,7 @@ type stepLog struct {
 	caller    int
 	code      string
 	transport bool
+	sentUntil time.Time // retention steps: the instant the request named (zero = not applicable)
 }
 
 func retentionXML(mode, date string) []byte {
@@ -328,7 +333,7 @@ func (r *run) do(st step) stepLog {
 	case "delete-bucket":
 		lg.Kind = "bucket"
 		return finish("DELETE bucket", cl.DeleteBucket(b))
-	case "put-retention-shorter", "put-retention-downgrade", "put-retention-empty", "put-retention-extend", "put-retention-upgrade":
+	case "put-retention-shorter", "put-retention-downgrade", "put-retention-empty", "put-retention-extend", "put-retention-upgrade", "put-retention-extend-zone-west", "put-retention-extend-zone-east":
 		mode := "GOVERNANCE"
 		if m.Ret != nil {
 			mode = m.Ret.Mode
@@ -344,8 +349,15 @@ func (r *run) do(st step) stepLog {
 			mode, date = "", ""
 		case "put-retention-extend":
 			date = dateLonger
+		case "put-retention-extend-zone-west":
+			date = dateLongerWest // the same instant as dateLonger, written with a zone offset
+		case "put-retention-extend-zone-east":
+			date = dateLongerEast
 		case "put-retention-upgrade":
 			mode, date = "COMPLIANCE", dateSet
+		}
+		if t, err := time.Parse(time.RFC3339, date); err == nil {
+			lg.sentUntil = t
 		}
 		lg.Kind, lg.Targets = "retention", []target{{K, tgtVid}}
 		resp := cl.Sub("PUT", b, K, subQ("retention", addrVid), retentionXML(mode, date), hdr...)
